@@ -39,9 +39,6 @@ func decodeOperands(instr *InstrMeta, idata ProgramCode, bitmask Bitmask) {
 	instr.Src = [2]uint8{0xFF, 0xFF}
 
 	instrCategory := opcodeInfoTable[instr.Opcode].Category
-	if instrCategory != InstrCatNoArg && int(pc)+1 >= len(idata) {
-		return
-	}
 
 	switch instrCategory {
 	case InstrCatNoArg:
@@ -153,6 +150,11 @@ func (p *Program) preDecodeBlocks() ExitReason {
 	bitmask := p.Bitmasks
 	n := len(idata)
 
+	// Operands are read from the zero-extended code (A.4): an instruction near the end of
+	// the blob may take operand bytes past it, and those bytes are zero.
+	zeroExtended := make(ProgramCode, n+32)
+	copy(zeroExtended, idata)
+
 	p.Instrs = make([]InstrMeta, 0, n/4)
 	p.BlockAt = make([]*BlockMeta, n)
 	p.InstrIdxAt = make([]int32, n)
@@ -203,7 +205,7 @@ func (p *Program) preDecodeBlocks() ExitReason {
 			})
 			p.InstrIdxAt[pc] = int32(idx)
 
-			decodeOperands(&p.Instrs[idx], idata, bitmask)
+			decodeOperands(&p.Instrs[idx], zeroExtended, bitmask)
 
 			if IsBlockTerminator(op) {
 				block.EndPC = pc
